@@ -1143,6 +1143,9 @@ func (fr *Frame) copyOp(ctx *callCtx) Val {
 	e.vc.assume(fmt.Sprintf("(forall ((j Int)) (! (= (select %s j) (ite (and (<= (soff %s) j) (< j (+ (soff %s) %s))) (select %s (idx %s (- j (soff %s)))) (select %s j))) :pattern ((select %s j))))",
 		newArr, dst.S, dst.S, n, srcArr, srcOff, dst.S, old, newArr))
 	e.setHeap(st, hn, hs, app("store", h, app("sptr", dst.S), newArr))
+	if ctx.common != nil && len(ctx.common.Args) == 2 {
+		fr.abiCopyLemma(ctx, newArr)
+	}
 	if kindOf(sl.Elem()) == kInt && kindOf(src.T) == kSlice {
 		// abstraction lemma: a full copy has the same abstract sequence as its source
 		e.declSeq()
